@@ -103,12 +103,12 @@ Proof. apply op_ind2; unfold Pplu; try (intros; apply plu_dense; assumption).
     + eapply upper_ext; [apply feq_sym; exact D'|apply (diag_upper n (fun _ => sqrt_o c))].
     + cbn [den]. eapply feq_trans; [apply (mmul_ext n n n); [apply feq_refl|apply (mmul_ext n n n); exact D']|].
       apply (plu_leaf_diag n (fun _ => sqrt_o c) (fun _ => c)). auto.
-  - (* Kron *) intros ms HF W Sq [SQ OK]. apply forall_map_id in OK.
+  - (* Kron *) intros ms HF W Sq [SQ OK]. apply (proj1 (forall_map_id _ _)) in OK.
     assert (G : plugoodl (map plu ms) ms).
     { cbn [wf] in W. apply andb_prop in W as [W _]. clear Sq. induction ms as [|m ms IH]; [constructor|]. inversion HF; inversion OK; subst. cbn [forallb] in W, SQ. apply andb_prop in W as [W1 W]. apply andb_prop in SQ as [S1 SQ].
-      cbn [map]. constructor; auto. }
+      cbn [map]. constructor; [auto|apply IH; auto]. }
     exact (kron_plu_ops (map plu ms) ms W SQ G).
-  - (* BDiag *) intros ms HF W Sq [SQ OK]. apply forall_map_id in OK.
+  - (* BDiag *) intros ms HF W Sq [SQ OK]. apply (proj1 (forall_map_id _ _)) in OK.
     assert (G : plugoodp (map (fun mc => (plu (fst mc), snd mc)) ms) ms).
     { cbn [wf] in W. clear Sq. induction ms as [|[m mu] ms IH]; [constructor|]. inversion HF; inversion OK; subst. cbn [forallb fst] in W, SQ. apply andb_prop in W as [W1 W]. apply andb_prop in SQ as [S1 SQ].
       cbn [map]. constructor; [split; auto|apply IH; auto]. }
@@ -121,10 +121,21 @@ Qed.
 Theorem structure_kept : forall e,
   dtype (chol e) = mirror (DtTri true) e /\
   (let '(P, L, U) := plu e in dtype P = mirrorP e /\ dtype L = mirror (DtTri true) e /\ dtype U = mirror (DtTri false) e).
-Proof. apply op_ind2; try (intros; cbn [C11_Decomp.chol C11_Decomp.plu]; try destruct (lu_o _ _) as [[p L] U]; repeat split; reflexivity).
+Proof. apply op_ind2; try (intros; cbn [C11_Decomp.chol C11_Decomp.plu]; try destruct (lu_o _ _) as [[p0 L0] U0]; repeat split; reflexivity).
   - (* Kron *) intros ms HF. cbn [C11_Decomp.chol C11_Decomp.plu dtype mirror mirrorP]. rewrite !map_map. repeat split; f_equal; apply map_ext_in; intros m Hm;
     rewrite Forall_forall in HF; destruct (HF m Hm) as [E1 E2]; auto; destruct (plu m) as [[P L] U]; cbn [fst snd]; tauto.
   - (* BDiag *) intros ms HF. cbn [C11_Decomp.chol C11_Decomp.plu dtype mirror mirrorP]. rewrite !map_map. repeat split; f_equal; apply map_ext_in; intros m Hm;
     rewrite Forall_forall in HF; destruct (HF m Hm) as [E1 E2]; cbn [fst snd]; f_equal; auto; destruct (plu (fst m)) as [[P L] U]; cbn [fst snd]; tauto.
 Qed.
 End T.
+
+(* the hypotheses are satisfiable: diag(4,9) (x) blockdiag(4 I_1 twice) over the Gaussian rationals with a table for the square roots *)
+From Coq Require Import ZArith.
+From Core Require Import FieldBase.
+Definition ex11_tree : op (R:=qi) := Kron [Diag 2 (qof_vec [qic 4%Z 1%positive 0%Z 1%positive; qic 9%Z 1%positive 0%Z 1%positive]); BDiag [(Scal (qic 4%Z 1%positive 0%Z 1%positive) 1, 2%nat)]].
+Definition ex11_sqrt (x : qi) : qi := if qi_eqb x (qic 4%Z 1%positive 0%Z 1%positive) then qic 2%Z 1%positive 0%Z 1%positive else if qi_eqb x (qic 9%Z 1%positive 0%Z 1%positive) then qic 3%Z 1%positive 0%Z 1%positive else qi0.
+Lemma ex11_ok : forall chol_o lu_o, wf ex11_tree = true /\ is_sq ex11_tree = true /\ cok chol_o ex11_sqrt ex11_tree /\ pok lu_o ex11_sqrt ex11_tree.
+Proof. intros ch lu. split; [vm_compute; reflexivity|]. split; [vm_compute; reflexivity|].
+  split; cbn [cok pok ex11_tree map fst]; (split; [vm_compute; reflexivity|]);
+  (constructor; [intros i Hi; destruct i as [|[|i]]; [vm_compute; reflexivity|vm_compute; reflexivity|lia]|]);
+  (constructor; [|constructor]); (split; [vm_compute; reflexivity|]); (constructor; [vm_compute; reflexivity|constructor]). Qed.
